@@ -79,6 +79,7 @@
 #include "upipe-modules/upipe_audio_merge.h"
 #include "upipe-modules/upipe_grid.h"
 #include "upipe-modules/upipe_rtp_h264.h"
+#include "upipe-modules/upipe_sync.h"
 #include "upipe-modules/upipe_rtp_mpeg4.h"
 #include "upipe-modules/upipe_multicat_probe.h"
 #include "upipe/ubuf_pic_mem.h"
@@ -1440,6 +1441,28 @@ static const struct inshape tab_h264[NSHAPES] = {
 ALLOC_VOID(rtp_h264, upipe_rtp_h264_mgr_alloc)
 ALLOC_VOID(rtp_mpeg4, upipe_rtp_mpeg4_mgr_alloc)
 
+/* sync: the main pipe takes the pictures (8x4, 25 frames per second; definition given at allocation, pictures from the upstream's pump) and is
+ * attached to the clock; the input subpipes take interleaved s32 stereo sound (mk_sound); outputs on the main pipe (S0) and on the subpipes */
+static struct upipe *alloc_sync(struct side *s)
+{
+    struct upipe *p = upipe_void_alloc(upipe_sync_mgr_alloc(), px_probe(&s->fx));
+    assert(p);
+    ubase_assert(upipe_attach_uclock(p));
+    struct uref *f = px_flow(&s->fx, "pic.", 8);
+    fix_pic_fmt(f, g_row->pic_w, g_row->pic_h, false);
+    ubase_assert(upipe_set_flow_def(p, f));
+    uref_free(f);
+    return p;
+}
+static struct uref *mk_sync(struct side *s, int seq, int sh, struct ubuf **held_p)
+{
+    if (!s->in_pump)
+        return mk_sound(s, seq, sh, held_p);
+    struct uref *u = cat_pic(s, side_pic_mgr(s), seq, sh, g_row->pic_w, g_row->pic_h, held_p);
+    cat_stamp(u, seq);
+    return u;
+}
+
 /* ------------------------------------------------------------------ */
 /* expected transformations (documented changes), written independently   */
 /* ------------------------------------------------------------------ */
@@ -1705,6 +1728,9 @@ static const struct row rows[] = {
      .in_shapes = 1 << 0 | 1 << 1 | 1 << 4, .nopts = 3,
      .opt = {{"input", 3, acname_set, acname_get, cont_name_vs, "null"}, {"latency", 2, aclat_set, aclat_get, cont_u64_vs, "0"},
              {"crossblend", 2, acxb_set, acxb_get, cont_u64_vs, "5400000"}}},
+    {.name = "sync", .kind = K_RECHUNK, .alloc = alloc_sync, .has_subs = true, .sub_io = true, .pump_to_main = true, .uses_pumps = true, .bad_def = "block.",
+     .in_def = "sound.s32.", .flow_fix = fix_sound, .mk_input = mk_sync, .pic_w = 8, .pic_h = 4, .out_not_block = true, .in_shapes = 1 << 0 | 1 << 1 | 1 << 4,
+     .endless = true /* once a picture has come, the pipe's timer re-arms for every frame period and repeats the last picture */},
     {.name = "grid", .kind = K_RECHUNK, .alloc = alloc_grid, .has_subs = true, .sub_io = true, .pump_to_main = true, .sub_alloc = sub_grid, .tick_pipe = tick_grid,
      .uses_pumps = true, .bad_def = "block.", .in_def = "pic.", .flow_fix = fix_videocont_sub, .mk_input = mk_grid, .pic_w = 8, .pic_h = 4, .out_def_prefix = "pic.",
      .out_not_block = true, .pic_size_oracle = true, .in_shapes = 1 << 0 | 1 << 4},
